@@ -2,7 +2,7 @@
 # development helper: run every seeded change against the check(s) named in its meta (default: its own property) and write seeded/RESULTS.tsv
 cd /verif
 : > seeded/RESULTS.tsv
-for d in $(ls seeded | grep -E '^C[0-9]+-[a-z]$'); do
+for d in $(ls seeded | grep -E '^C[0-9]+-[a-z][0-9]?$'); do
   props=$(echo $d | cut -d- -f1)
   [ "$d" = "C04-b" ] && props="C04 C10"
   cd /repo && git apply /verif/seeded/$d/patch.diff || { echo "$d	APPLY-FAILED" >> /verif/seeded/RESULTS.tsv; cd /verif; continue; }
